@@ -35,18 +35,23 @@ type clientRec struct {
 }
 
 type st struct {
-	lasRet     bool
-	lasErr     error
-	closeErr   error
-	closeRet   bool
-	closeTries int
-	est        map[string]int
-	fin        map[string]int
-	order      []string // callback/handler events in order
-	clients    []*clientRec
-	pl         *lib.PipeListener
-	snap       bool
-	stage      int
+	lasRet          bool
+	lasErr          error
+	closeErr        error
+	closeRet        bool
+	closeTries      int
+	est             map[string]int
+	fin             map[string]int
+	order           []string // callback/handler events in order
+	clients         []*clientRec
+	pl              *lib.PipeListener
+	snap            bool
+	stage           int
+	lastKind        string
+	stalled         *rt.Conn
+	stalledClosedAt time.Duration
+	stalledEnded    bool
+	closeAt         time.Duration
 }
 
 func drainAll(cc *lime.ClientChannel) {
@@ -80,6 +85,10 @@ func body(nclients int, withInproc bool) func(x *harness.X) {
 		x.Vars["st"] = s
 		s.stage = rt.Choose(4) // when the closer is released
 		sendMsg := rt.Choose(2) == 1
+		// what the last client does: a normal session, a handshake the server refuses
+		// (unknown role), or a handshake that stalls after the server's first answer
+		lastKind := []string{"normal", "refused", "stalled"}[rt.Choose(3)]
+		s.lastKind = lastKind
 		mux := &lime.EnvelopeMux{}
 		mux.MessageHandlerFunc(nil, func(ctx context.Context, m *lime.Message, snd lime.Sender) error {
 			id, _ := lime.ContextSessionID(ctx)
@@ -92,7 +101,13 @@ func body(nclients int, withInproc bool) func(x *harness.X) {
 		cfg.SchemeOpts = []lime.AuthenticationScheme{lime.AuthenticationSchemeGuest}
 		cfg.EncryptOpts = []lime.SessionEncryption{lime.SessionEncryptionNone}
 		cfg.Backlog, cfg.ChannelBufferSize = 1, 1
-		cfg.Authenticate, cfg.Register = lib.GuestOK, lib.RegisterSame
+		cfg.Register = lib.RegisterSame
+		cfg.Authenticate = func(ctx context.Context, id lime.Identity, a lime.Authentication) (*lime.AuthenticationResult, error) {
+			if id.Name == "mallory" {
+				return lime.UnknownAuthenticationResult(), nil
+			}
+			return lime.MemberAuthenticationResult(), nil
+		}
 		cfg.Established = func(id string, c *lime.ServerChannel) {
 			s.est[id]++
 			s.order = append(s.order, "est:"+id)
@@ -123,8 +138,42 @@ func body(nclients int, withInproc bool) func(x *harness.X) {
 		}()
 		for i := 0; i < nclients; i++ {
 			c := &clientRec{name: fmt.Sprintf("cli%d", i)}
+			kind := "normal"
+			if i == nclients-1 {
+				kind = lastKind
+			}
+			if kind == "refused" {
+				c.name = "mallory"
+			}
 			s.clients = append(s.clients, c)
 			useInproc := withInproc && i == 1
+			if kind == "stalled" && !useInproc {
+				// raw client: sends new, reads the server's answer, then says nothing more
+				go func() {
+					conn := pl.Dial()
+					c.conn = conn
+					s.stalled = conn
+					c.dialled = true
+					reached(1)
+					p := lib.NewRawPeer(conn)
+					p.Block = true
+					_ = p.Send([]byte(`{"state":"new"}`))
+					if _, ok := p.ReadOne(30 * time.Second); ok {
+						x.Obs("stalled client got the server's first answer")
+					}
+					reached(2)
+					// wait for the server to hang up
+					for !p.EOF && p.Err == nil {
+						if _, ok := p.ReadOne(30 * time.Second); !ok {
+							break
+						}
+					}
+					s.stalledClosedAt = rt.Elapsed()
+					s.stalledEnded = true
+					x.Obs("stalled client saw the connection end")
+				}()
+				continue
+			}
 			go func() {
 				var tr lime.Transport
 				if useInproc {
@@ -147,6 +196,7 @@ func body(nclients int, withInproc bool) func(x *harness.X) {
 					c.estErr = fmt.Errorf("establish: %v %v", err, ses)
 					x.Obs("%s could not establish", c.name)
 					_ = cc.Close()
+					reached(2)
 					return
 				}
 				c.established = true
@@ -185,6 +235,7 @@ func body(nclients int, withInproc bool) func(x *harness.X) {
 				break
 			}
 			s.closeRet = true
+			s.closeAt = rt.Elapsed()
 			x.Obs("Close returned err=%v tries>1=%v", s.closeErr != nil, s.closeTries > 1)
 		}()
 		for i := 0; i < 6; i++ {
@@ -234,6 +285,11 @@ func final(x *harness.X, res *rt.Result) {
 		// connections the server started to serve (it read the client's first envelope)
 		if sc.BytesRead > 0 && !sc.IsClosed() {
 			x.Failf("server-conn-open", "server end of connection %d was never closed %s", i, hist)
+		}
+	}
+	if s.stalled != nil && s.closeRet && s.stalled.PeerBytesRead() > 0 {
+		if !s.stalledEnded || s.stalledClosedAt-s.closeAt > 6*time.Second {
+			x.Failf("handshake-outlives-close", "a handshake in progress was not released within the I/O poll interval after Close (Close returned at %v, the stalled client saw the end at %v) %s", s.closeAt, s.stalledClosedAt, hist)
 		}
 	}
 	for _, c := range s.clients {
@@ -300,7 +356,7 @@ func main() {
 	harness.Main(harness.Check{
 		Property: "C18",
 		Level:    "model_checking",
-		Rule:     "1-2 clients (real ClientChannel over the real TCP transport on virtual pipes; optionally one over the in-process listener) x moment at which Server.Close is released {start-up, a client dialled, a client established, traffic handled} x {idle, one message} as data choices; all schedules within the deviation bound (delay bounding) from ListenAndServe's start; distinct outcome = distinct observation log",
+		Rule:     "1-2 clients (real ClientChannel over the real TCP transport on virtual pipes; optionally one over the in-process listener); the last client is a normal session, one the server refuses (unknown role) or a raw client whose handshake stalls after the server's first answer x moment at which Server.Close is released {start-up, a client dialled, a client established, traffic handled} x {idle, one message} as data choices; all schedules within the deviation bound (delay bounding) from ListenAndServe's start; distinct outcome = distinct observation log",
 		Assume:   []string{"state pruning is off (Server.shutdown and Client fields are not behind hooked operations)", "WebSocket/real TCP listeners are not explored under the scheduler"},
 		Scenarios: []harness.Scenario{
 			mk("1client", 1, false, 1, 2),
